@@ -39,6 +39,9 @@ PROP = 'C19'
 IMPORTS = 'IntDeriv'
 
 
+DEFS0 = {}     # 0-ary function name -> defining expression, taken from the context of the calculation being replayed
+
+
 class Undefined(Exception):
     pass
 
@@ -108,8 +111,9 @@ def nev(e, env):
         fn = e.func_name
         if fn == 'pi':
             return mp.pi
-        if fn == 'G':      # Catalan's constant
-            return mpmath.catalan
+        if not e.args and fn in DEFS0:
+            # a constant that the calculation file itself defines (G is Catalan's constant in one file, Euler's in another)
+            return nev(DEFS0[fn], env)
         args = [nev(a, env) for a in e.args]
         if fn == 'log':
             if args[0] <= 0:
@@ -821,6 +825,13 @@ def run_check(tier, seed):
                 continue
             for calc, conds_e in calculations_of(st):
                 e = calc.start
+                DEFS0.clear()
+                try:
+                    for idn in calc.ctx.get_definitions():
+                        if idn.lhs.is_fun() and not idn.lhs.args:
+                            DEFS0[idn.lhs.func_name] = idn.rhs
+                except Exception:
+                    pass
                 for step in calc.steps:
                     n_steps += 1
                     try:
